@@ -9,7 +9,9 @@ props = {json.loads(l)["id"]: json.loads(l) for l in open("/verif/properties.jso
 prev = {}
 for mp in sorted(glob.glob("/verif/seeded/*/meta.json")) + sorted(glob.glob("/tmp/seed[0-9]-*-out/meta.json")):
     m = json.load(open(mp))
-    prev.setdefault(m["property"], []).append(" ".join(m["summary"].split())[:330])
+    txt = " ".join(m["summary"].split())[:330]
+    if not any(t[:150] == txt[:150] for t in prev.get(m["property"], [])):
+        prev.setdefault(m["property"], []).append(txt)
 for pid in ids or sorted(props):
     p = props[pid]
     wt = "/tmp/seed%s-%s" % (rnd, pid.lower())
